@@ -38,7 +38,47 @@ K1_C08 = ['SdElement.generate_function', 'SdElement.Element.equation.setter', 'S
           'SdElement.Flow.equation.setter', 'SdElement.Constant.equation.setter', 'SdElement.Stock.initial_value.setter',
           'Scenario.reset_cache', 'Model.reset_cache', 'Model.memoize']
 
+K1_C07 = ['SdScenario.__init__', 'SdScenario.configure_settings', 'SdSimulation.__init__', 'SdSimulation.change_runspecs',
+          'SdSimulation.change_equation', 'SdSimulation.change_points', 'SdRunner.run_scenario_step']
+_SCEN_ASSUME = ['scenario lookup (ScenarioManagerFactory.get_scenarios) returns live scenario objects owning distinct models (assumed contract)',
+                'SdSimulation.start simulates with the model\'s current run spec (assumed here; its pieces are under contract in C05)',
+                'values of constants / points are opaque (ANY): the contracts speak about WHICH entries are replaced, not about evaluating the lambdas',
+                'Python semantics of the subset (DESIGN 2.2.7); single-threaded']
+
 PROPS = {
+    'C07': dict(
+        mods=['contracts.c07_scenarios'], k1=K1_C07, level='proof',
+        harness='verif/native/c09_harness.py', harness_budget=(25, 120),
+        explanation='functional contract per hop of the settings channels: SimulationScenario.__init__ / configure_settings (dictionary -> constants, '
+                    'points, run specs; own values win key by key), SdSimulation.__init__/change_equation/change_points/change_runspecs (the integrating model '
+                    'gets exactly the scenario\'s start, stop and dt), SdRunner.run_scenario_step (every addressed scenario ends with a live simulation on '
+                    'its own model carrying its run spec; the runner writes no scenario setting)',
+        assumptions=_SCEN_ASSUME,
+        not_decided=['not decided: the file channel (ScenarioManagerFactory.__readScenario, JSON/YAML parsers, base constants spread over files): file-system driven, unverified',
+                     'not decided: add_scenarios base-constant merging and SdRunner._run_scenarios (batch path) -- exercised by the native harness only']),
+    'C09': dict(
+        mods=['contracts.c07_scenarios'], k1=['SdRunner.run_scenario_step', 'SdSimulation.change_equation', 'SdSimulation.change_runspecs', 'Model.equation',
+                                             'SdSimulation.__simulate'],
+        level='proof', engines=['contracts.c05_extra'],
+        harness='verif/native/c09_harness.py', harness_budget=(25, 120), always_harness=True,
+        explanation='every channel reads model.equation(eq, t) (compute-once memo under the normalised key) on the same grid successor function: '
+                    'batch (__simulate: one entry per label of timerange), session clock (structural obligation: normalize(step+dt,...)), '
+                    'run_scenario_step keeps the live simulation across steps and applies the step settings before evaluating; change_equation leaves the '
+                    'memo untouched, so settings affect the steps from that step onwards and nothing before it',
+        assumptions=_SCEN_ASSUME + ['pandas frame assembly (df / to_dict / json) and the REST serialisers are trusted'],
+        not_decided=['not decided: bptk.begin_session / session_results re-indexing and the REST handlers as functions (deep dynamic dict code): reached by the native harness only',
+                     'not decided: pandas / json agreement of the three batch formats (library code)']),
+    'C06': dict(
+        mods=['contracts.c07_scenarios'], k1=['SdRunner.run_scenario_step', 'SdSimulation.change_equation', 'SdSimulation.change_points',
+                                             'SdSimulation.change_runspecs', 'SdScenario.__init__'],
+        level='proof', engines=['contracts.c06_clone'],
+        harness='verif/native/c09_harness.py', harness_budget=(25, 120),
+        explanation='separation + frames: get_cloned_model returns a new Model that installs none of the base model\'s mutable containers (structural obligations '
+                    'from the AST); change_equation / change_points / change_runspecs write only the fields of their own simulation model (frame proved); '
+                    'run_scenario_step writes no scenario setting and, for distinct models, leaves the run spec of every other scenario untouched',
+        assumptions=_SCEN_ASSUME,
+        not_decided=['not decided: "results equal those of a freshly built model" as a relation (C07 spine + harness)',
+                     'not decided: sharing through mutable default arguments between managers; arrayed elements share _elements with the base element']),
     'C08': dict(
         mods=['contracts.c08_memo', 'contracts.c05_grid'], k1=K1_C08, level='proof',
         harness='verif/native/c08_harness.py', harness_budget=(15, 90),
